@@ -386,6 +386,35 @@ func genC07(g *Gen) {
 		g.Add(c)
 	}
 
+	// (2b) double-quoted strings made of escapes, whole and cut short at every length
+	esc := []string{"\\ud83d", "\\ude00", "\\u00e9", "\\u", "\\ud8", "\\ude", "\\udc00\\ud800", "\\/", "\\n", "\\\\", "\\\"", "\\x41", "\\101", "\\U0001F600", "\\", "a", "é", "d83d", "0"}
+	for i := 0; i < n; i++ {
+		k := 1 + r.Intn(4)
+		var b strings.Builder
+		b.WriteString("\"")
+		for j := 0; j < k; j++ {
+			b.WriteString(esc[r.Intn(len(esc))])
+		}
+		str := b.String()
+		if r.P(1, 2) {
+			str = str[:1+r.Intn(len(str))] // cut anywhere, also inside an escape
+		}
+		str += "\""
+		switch r.Intn(4) {
+		case 0:
+			str = "[" + str + "]"
+		case 1:
+			str = "{k: " + str + "}"
+		}
+		f := 7 | r.Intn(32)
+		cfg := parse.Config{Array: f&1 != 0, Object: f&2 != 0, StringDQuote: f&4 != 0, StringSQuote: f&8 != 0, IgnoreCommas: f&16 != 0}
+		g.Mark(map[string]interface{}{"entry": "parse.ValueWithConfig", "input": str, "cfg": fmt.Sprintf("%+v", cfg)})
+		c := c17ParseCase(str, cfg)
+		c.Coq = "CParse7 (" + c.Coq + ")"
+		c.Tags = append(c.Tags, "parse", "escapes")
+		g.Add(c)
+	}
+
 	// (3) the format loaders on arbitrary bytes
 	for i := 0; i < n; i++ {
 		doc := mutateDoc(r, c07Docs[r.Intn(len(c07Docs))])
